@@ -23,6 +23,7 @@ func init() {
 		"fmt.Sprint":   stubOpaqueStr,
 		"fmt.Sprintln": stubOpaqueStr,
 		"errors.Is":    stubErrorsIs,
+		"(*errors.joinError).Error": stubOpaqueStr, // real code builds the text with unsafe.String
 
 		"(*sync.Once).Do":        stubOnceDo,
 		"(*sync.Mutex).Lock":     stubNop,
